@@ -153,6 +153,9 @@ MUTANTS = [
     dict(id="C13-rr-status-ignored", prop="C13", file=PE,
          old="        return all((super().is_valid(), self.service_status == SUCCESS))",
          new="        return all((super().is_valid(), self.service_status is not None))"),
+    dict(id="C13-slc-sts-0x10-ok", prop="C13", file=SL,
+         old="        if _status_code == SUCCESS:\n            return None",
+         new="        if _status_code in (SUCCESS, 0x10):\n            return None"),
     # ---- C14 ----
     dict(id="C14-us-pad-inverted", prop="C14", file=PU,
          old="            b\"\\x00\" if msg_len % 2 else b\"\",",
